@@ -2,6 +2,7 @@ package main
 
 import (
 	"bytes"
+	"encoding/json"
 	"fmt"
 	"image"
 	"math/rand"
@@ -14,6 +15,7 @@ import (
 
 	"github.com/deepteams/webp"
 	"github.com/deepteams/webp/animation"
+	"github.com/deepteams/webp/internal/verifhook"
 	"github.com/deepteams/webp/verifx/vx"
 )
 
@@ -30,12 +32,56 @@ func c12Child(args []string) {
 	run := vx.NewRun("C12", "exploration", args[1:])
 	activeRun = run
 	for i, c := range c12Cases(run) {
+		verifhook.StartRanges()
 		d, err := c.run()
+		recs := verifhook.StopRanges()
 		if err != nil {
 			d = "error: " + err.Error()
 		}
 		fmt.Printf("DIGEST %d %s\n", i, d)
+		for _, g := range groupRanges(recs) {
+			b, _ := json.Marshal(g)
+			fmt.Printf("RANGES %d %s\n", i, b)
+		}
 	}
+}
+
+// rangeGroup is one parallel section as observed through verifhook.Range: a line of the TVWorkers trace.
+type rangeGroup struct {
+	ID     string   `json:"id"`
+	Site   string   `json:"site"`
+	Base   int      `json:"base"`
+	End    int      `json:"end"`
+	NW     int      `json:"nw"`
+	Ranges [][2]int `json:"ranges"`
+}
+
+// groupRanges splits the records into parallel sections: records of one spawning goroutine and site, a new section
+// starting whenever the worker index does not continue the previous one.
+func groupRanges(recs []verifhook.RangeRec) []rangeGroup {
+	type key struct {
+		g    int64
+		site string
+	}
+	open := map[key]*rangeGroup{}
+	lastW := map[key]int{}
+	var out []*rangeGroup
+	for _, r := range recs {
+		k := key{r.G, r.Site}
+		g := open[k]
+		if g == nil || r.W != lastW[k]+1 || r.Base != g.Base || r.End != g.End || r.NW != g.NW {
+			g = &rangeGroup{Site: r.Site, Base: r.Base, End: r.End, NW: r.NW}
+			open[k] = g
+			out = append(out, g)
+		}
+		lastW[k] = r.W
+		g.Ranges = append(g.Ranges, [2]int{r.Lo, r.Hi})
+	}
+	res := make([]rangeGroup, len(out))
+	for i, g := range out {
+		res[i] = *g
+	}
+	return res
 }
 
 type c12Case struct {
@@ -190,9 +236,12 @@ func checkC12(args []string) {
 	procs := []int{1, 2, 3, 4, 5, 7, 8, 16, 32}
 	cases := c12Cases(run)
 	results := map[int][]string{}
+	var groups []rangeGroup
+	anomalies := map[int][]string{}
 	type cres struct {
 		n   int
 		ds  []string
+		gs  []rangeGroup
 		err error
 		out string
 	}
@@ -203,12 +252,23 @@ func checkC12(args []string) {
 			cmd.Env = append(os.Environ(), fmt.Sprintf("VERIF_SEED=%d", run.Seed), fmt.Sprintf("GOMAXPROCS=%d", n))
 			out, err := cmd.CombinedOutput()
 			var ds []string
+			var gs []rangeGroup
 			for _, ln := range strings.Split(string(out), "\n") {
 				if strings.HasPrefix(ln, "DIGEST ") {
 					ds = append(ds, strings.SplitN(ln, " ", 3)[2])
 				}
+				if strings.HasPrefix(ln, "RANGES ") {
+					f := strings.SplitN(ln, " ", 3)
+					var g rangeGroup
+					if json.Unmarshal([]byte(f[2]), &g) != nil {
+						err = fmt.Errorf("bad RANGES line %q", ln)
+					}
+					ci, _ := strconv.Atoi(f[1])
+					g.ID = fmt.Sprintf("%d|%d", ci, n)
+					gs = append(gs, g)
+				}
 			}
-			ch <- cres{n, ds, err, string(out)}
+			ch <- cres{n, ds, gs, err, string(out)}
 		}(n)
 	}
 	for range procs {
@@ -217,6 +277,52 @@ func checkC12(args []string) {
 			vx.Fatal2("C12 child GOMAXPROCS=%d failed: %v (%d digests for %d cases)\n%s", r.n, r.err, len(r.ds), len(cases), tailStr(r.out, 800))
 		}
 		results[r.n] = r.ds
+		groups = append(groups, r.gs...)
+	}
+	// the observed partitions, validated by the specification (spec/TVWorkers.tla)
+	{
+		seen := map[string]bool{}
+		sites := map[string]int{}
+		var tr []rangeGroup
+		for _, g := range groups {
+			sites[g.Site]++
+			k := fmt.Sprintf("%s|%d|%d|%v", g.Site, g.Base, g.End, g.Ranges)
+			if seen[k] {
+				continue
+			}
+			seen[k] = true
+			tr = append(tr, g)
+		}
+		for i := range tr {
+			tr[i].ID = fmt.Sprintf("%s|%s|#%d", tr[i].ID, tr[i].Site, i)
+		}
+		if len(tr) == 0 {
+			vx.Fatal2("C12: no parallel section was observed through verifhook.Range (hooks missing?)")
+		}
+		res := vx.MustTLC(vx.TLCOpts{Module: "TVWorkers", Cfg: "TVWorkers.cfg", Workers: 1, Timeout: 20 * time.Minute, Heap: "8g",
+			Files: map[string][]byte{"trace.ndjson": vx.NDJSON(tr)}})
+		run.AddTLC(res)
+		run.AddTraces(len(tr))
+		byID := map[string]rangeGroup{}
+		for _, g := range tr {
+			byID[g.ID] = g
+		}
+		// An irregular partition is not by itself a dependence of the RESULT on GOMAXPROCS (re-doing an item can be
+		// harmless, an item may be handled outside the section): it is recorded, and it is attached as the diagnosis to
+		// a result difference of the same call. The verdict stays with the equality oracle below.
+		for _, b := range vx.Verdict(res, len(tr), "TVWorkers") {
+			g := byID[b.ID]
+			f := strings.SplitN(b.ID, "|", 3)
+			ci, _ := strconv.Atoi(f[0])
+			msg := fmt.Sprintf("GOMAXPROCS=%s: parallel section %q over items %d..%d with %d workers handed out %v: %s", f[1], g.Site, g.Base, g.End-1, g.NW, g.Ranges, b.Why)
+			anomalies[ci] = append(anomalies[ci], msg)
+			run.Note("partition anomaly in %s: %s", cases[ci].name, msg)
+			fmt.Printf("NOTE property=C12 partition anomaly (not a verdict): %s: %s\n", cases[ci].name, msg)
+		}
+		run.Cov["partition_anomalies"] = len(anomalies)
+		run.Cov["parallel_sections_observed"] = len(groups)
+		run.Cov["distinct_partitions_validated"] = len(tr)
+		run.Cov["sections_per_site"] = sites
 	}
 	for ci, c := range cases {
 		res := map[int]string{}
@@ -250,7 +356,14 @@ func checkC12(args []string) {
 			if i := lastIndexByte(kind, ':'); i >= 0 {
 				sig = kind[i+1:]
 			}
-			run.Violate("gomaxprocs|"+cls+"|"+sig, fmt.Sprintf("%s: result under GOMAXPROCS=1 differs from GOMAXPROCS in %v (results for n>1 mutually equal: %v)", c.name, diffs, multiSame), c.name)
+			diag := ""
+			if len(anomalies[ci]) > 0 {
+				diag = "; observed " + strings.Join(anomalies[ci], "; ")
+				if len(diag) > 900 {
+					diag = diag[:900] + "..."
+				}
+			}
+			run.Violate("gomaxprocs|"+cls+"|"+sig, fmt.Sprintf("%s: result under GOMAXPROCS=1 differs from GOMAXPROCS in %v (results for n>1 mutually equal: %v)%s", c.name, diffs, multiSame, diag), c.name)
 		}
 		run.Sample(map[string]any{"call": c.name, "result_gomaxprocs_1": res[1], "differs_for": diffs})
 	}
